@@ -145,6 +145,19 @@ CHECKS["C03"] = dict(
     design="§7 C03",
 )
 
+CHECKS["C13"] = dict(
+    text=("Lean: state machine of the key representation (code chunks, optional per-chunk pointer tables, contiguous flag) with every public operation "
+          "classified by its rewrite (none / unify keep_chunked / unify flatten / both); unify_preserves_abs: unification never changes the global code "
+          "of any row (null code kept); history_preserves_abs / history_independent by induction over arbitrary operation lists: any result that is a "
+          "function of the global codes is the same after ANY history as on the fresh object; unify_false_flat; chunked_reduce_eq_flat: merging per-chunk "
+          "partials (through the pointer tables, from the empty partial) equals the single pass over contiguous global codes. Correspondence: random "
+          "operation histories on one real object (4 initial representations, all public methods incl. copy-construction and class-level calls, fresh "
+          "values/masks per step), every output compared with a freshly built object, labels re-checked after every step."),
+    note="The classification of operations by their rewrite and the claim that results are functions of the global codes are read off core.py and tied by the stateful correspondence run; cached properties other than the code layout are covered by the run only.",
+    technique="Lean 4 proof (refinement to the abstract code list, invariant by induction over histories) + stateful differential testing against fresh objects",
+    design="§7 C13",
+)
+
 NOT_APPLICABLE: list[dict] = []
 
 
